@@ -23,6 +23,85 @@ def exWriteQuery (env : Env) (isInsert : Bool) (tgt : List String) (cols : Optio
   | .ok h => .ok (g.compose h)
   | .error e => .error e
 
+/-- first `column_reference` that is a DIRECT child of the `expression` segment an expression is wrapped in -/
+def firstFlatCol : Expr → Option (List String × String)
+  | .col qs c => some (qs, c)
+  | .bin _ a b => match firstFlatCol a with | some x => some x | none => firstFlatCol b
+  | _ => none
+
+/-- in a VALUES bracket `get_children("literal", "expression")` sees every value: literals, and everything else wrapped in
+    an `expression` segment (a bare column and a function call too) -/
+def isLitOrExprSeg : Expr → Bool
+  | .star _ => false
+  | _ => true
+
+/-- `UpdateExtractor.extract` (extractors/update.py).  Only `SET c = col` clauses (exactly two column references) give column
+    lineage; WHERE subqueries are not looked at; the target's alias is not registered. -/
+def exUpdate (env : Env) (ctx : Ctx) (tgt : List String) (sets : List SetClause) (frm : List FromExpr) :
+    Except Err LGraph :=
+  let g := addWriteO (initHolder ctx) (mkTable env tgt none)
+  let g := (tablesOfFrom env g frm).foldl addReadO g
+  let specs : List ColSpec := sets.filterMap (fun sc =>
+    match sc.src with
+    | .col qs c => some (ColSpec.of (sc.tgt.getLast?.getD "") [(c, qs.getLast?)])
+    | _ => none)
+  match (writeSet g).head? with
+  | none => .ok g
+  | some t =>
+    let tp := (t, printedDS g t)
+    let m := aliasMapping g (objsOf g .read)
+    match specs.foldlM (fun g c =>
+        (toSourceColumns env.importDefault m c env.revStar).foldlM
+          (fun g s => addColumnLineage g s (Column.mk1 c.raw (some tp))) g) g with
+    | .error e => .error e
+    | .ok g' => sqFrom env (decide (frm.length > 1)) frm g'
+
+/-- `MergeExtractor.extract` (extractors/merge.py) -/
+def exMerge (env : Env) (tgt : List String) (src : MergeSource) (updates : List (List SetClause))
+    (inserts : List MergeInsert) : Except Err LGraph :=
+  let t := mkTable env tgt none
+  let g := addWriteO Graph.empty t
+  let tp := (t.d, t.printed)
+  -- USING: a table (no alias is registered) or a bracketed query with its alias
+  let srcRes : Except Err (LGraph × Option (DS × String)) :=
+    match src with
+    | .table parts _ =>
+      let s := mkTable env parts none
+      .ok (addReadO g s, some (s.d, s.printed))
+    | .derived q alias =>
+      let obj := mkSubq (subqRaw env q) alias
+      let g1 := addReadO g obj
+      match exQuery env ⟨cteObjs g1, [obj], []⟩ q with
+      | .error e => .error e
+      | .ok h => .ok (g1.compose h, some (obj.d, obj.printed))
+  match srcRes with
+  | .error e => .error e
+  | .ok (g, ds) =>
+    let mkSrc := fun (c : String) => Column.mk1 (Ident.escapeS c) ds
+    let mkTgt := fun (c : String) => Column.mk1 (Ident.escapeS c) (some tp)
+    -- WHEN MATCHED THEN UPDATE SET c = col
+    let upd := updates.flatten.filterMap (fun sc =>
+      match sc.src with
+      | .col _ c => some (mkSrc c, mkTgt (sc.tgt.getLast?.getD ""))
+      | _ => none)
+    match upd.foldlM (fun g p => addColumnLineage g p.1 p.2) g with
+    | .error e => .error e
+    | .ok g =>
+      -- WHEN NOT MATCHED THEN INSERT (cols) VALUES (vals): position j of the literal/expression values
+      inserts.foldlM (fun g ins =>
+        let cols := ins.cols.map (fun c => mkTgt (c.getLast?.getD ""))
+        ((ins.vals.filter isLitOrExprSeg).zipIdx).foldlM (fun g vi =>
+          match firstFlatCol vi.1 with
+          | some (_, c) =>
+            (match cols[vi.2]? with
+              | some tc => addColumnLineage g (mkSrc c) tc
+              | none => .ok g)          -- more values than insert columns: the surplus values are skipped (D14 repair)
+          | none => .ok g) g) g
+
+/-- `CopyExtractor.extract` (extractors/copy.py), `COPY tgt FROM 'path'` -/
+def exCopy (env : Env) (tgt : List String) (path : String) : LGraph :=
+  addRead (addWriteO Graph.empty (mkTable env tgt none)) (.path (Ident.escapeS path)) none
+
 def exDrop (env : Env) (tgt : List String) : LGraph := addDrop Graph.empty (mkTable env tgt none).d
 def exRename (env : Env) (ps : List (List String × List String)) : LGraph :=
   ps.foldl (fun g p => addRename g (mkTable env p.1 none).d (mkTable env p.2 none).d) Graph.empty
@@ -78,9 +157,9 @@ def analyze (env : Env) (silent : Bool) (s : Stmt) : Except Err LGraph :=
     | .alterRename x y => .ok (exRename env [(x, y)])
     | .renameTable ps => .ok (exRename env ps)
     | .noop _ _ => .ok Graph.empty
-    | .update .. => .error (.internal "unmodelled:update")
-    | .merge .. => .error (.internal "unmodelled:merge")
-    | .copy .. => .error (.internal "unmodelled:copy")
+    | .update tgt _ sets frm _ => exUpdate env {} tgt sets frm
+    | .merge tgt _ src _ ups ins => exMerge env tgt src ups ins
+    | .copy tgt path => .ok (exCopy env tgt path)
     | .unsupported _ => .error .unsupported
 
 end SqlLineage.Walk
